@@ -15,32 +15,14 @@ from tools.gen import inttypes as gen_int
 from tools.gen.csrc import ExtractError
 from harness.C14 import oracle
 
-# obligations that mention the regenerated configuration (fail on a tree that lacks a guard)
-THEOREMS_GEN = [
-    "JanetModel.Props.C14.no_ub",
-    "JanetModel.Props.C14.compare_mixed_correct",
-    "JanetModel.Props.C14.compare_mixed_correct_unsigned",
-    "JanetModel.Props.C14.method_tables_ok",
-    "JanetModel.Props.C14.dispatch_left_then_reversed_right",
-]
-# configuration-generic theorems (hold for every tree whose shape the translator accepts)
-THEOREMS = [
-    "JanetModel.Props.C14.wrap_ops_eq_bitvec",
-    "JanetModel.Props.C14.wrap_ops_in_range",
-    "JanetModel.Props.C14.shift_ops_eq_bitvec",
-    "JanetModel.Props.C14.divf_eq_floor_div",
-    "JanetModel.Props.C14.mod_eq_floor_mod",
-    "JanetModel.Props.C14.trunc_div_rem_correct",
-    "JanetModel.Props.C14.mod_zero_is_dividend",
-    "JanetModel.Props.C14.div_zero_errors",
-    "JanetModel.Props.C14.no_ub_iff_guarded",
-    "JanetModel.Props.C14.no_ub_partial",
-    "JanetModel.Props.C14.ub_reachable_on_pinned",
-    "JanetModel.Props.C14.compare_mixed_correct_of_inclusive",
-    "JanetModel.Props.C14.compare_mixed_partial",
-    "JanetModel.Props.C14.compare_wrong_on_pinned",
-    "JanetModel.Props.C14.unwrap_range",
-]
+# theorems of Props/C14.lean; the ones in PROPS_GEN mention the regenerated configuration / tables (Gen/Int64.lean)
+PROPS_GEN = ["no_ub", "method_tables_ok", "dispatch_left_then_reversed_right"]
+PROPS = ["wrap_ops_eq_bitvec", "wrap_ops_in_range", "shift_ops_eq_bitvec", "divf_eq_floor_div", "mod_eq_floor_mod", "trunc_div_rem_correct",
+         "mod_zero_is_dividend", "div_zero_errors", "no_ub_iff_guarded", "no_ub_partial", "ub_reachable_on_pinned"]
+# configuration-generic lemmas (audited separately when Props/C14 does not build, to show what still holds)
+LEMMAS = ["opMethod_add", "opMethod_sub", "opMethod_mul", "opMethod_and", "opMethod_or", "opMethod_xor", "notMethod_bitvec", "opMethod_shl", "opMethod_sar",
+          "divf_eq_floor_div", "mod_eq_floor_mod", "trunc_div_rem_correct", "mod_zero_is_dividend", "div_zero_errors", "no_ub_iff_guarded", "no_ub_partial",
+          "ub_reachable_on_pinned"]
 ENV = dict(os.environ, ASAN_OPTIONS="detect_leaks=0:abort_on_error=0", UBSAN_OPTIONS="print_stacktrace=0")
 HARNESS_SRC = os.path.join(VERIF, "harness/C14/arith.c")
 NJOBS = 12
@@ -164,10 +146,22 @@ def run(ctx):
     except BuildError as e:
         ctx.violation("build-failed", {"kind": "build", "error": str(e)}, found=False, what="tree does not build")
         return ctx.finish("proof", {"evaluations": 0, "distinct_nontrivial": 0})
-    # (B,C) kernel check + audit: generic lemmas first (so that a failing Gen-instantiated theorem is reported by name)
-    generic_broken = ctx.obligations("JanetModel.Int64.Theorems", [t.replace("Props.C14", "Int64") for t in THEOREMS])
-    gen_broken = ctx.obligations("JanetModel.Props.C14", THEOREMS + THEOREMS_GEN)
-    broken += generic_broken + gen_broken
+    # (B,C) kernel check + audit
+    pb = ctx.obligations("JanetModel.Props.C14", ["JanetModel.Props.C14." + t for t in PROPS + PROPS_GEN])
+    if pb:
+        # which obligation over Gen is it?  (read off the regenerated flags; the kernel's verdict is the build failure itself)
+        named = []
+        if flags and not all(flags.get(k) for k in ("guardDivf", "guardDivfi", "guardMod", "guardModi", "guard_DIVMETHOD_SIGNED", "guard_DIVMETHODINVERT_SIGNED")):
+            named.append("JanetModel.Props.C14.no_ub (a signed division or remainder without the INT64_MIN / -1 test: %s)" %
+                         ", ".join(k for k in ("guardDivf", "guardDivfi", "guardMod", "guardModi", "guard_DIVMETHOD_SIGNED", "guard_DIVMETHODINVERT_SIGNED") if not flags.get(k)))
+        if flags and (flags.get("cmpS64Upper") != ">=" or flags.get("cmpU64Upper") != ">="):
+            named.append("JanetModel.Props.C14.compare_mixed_correct (edge comparison of compare_int64_double / compare_uint64_double is exclusive: 2^63 resp. 2^64 reach the cast)")
+        broken += named + pb
+        # the generic lemmas still hold?  (separate module, does not depend on the failing instantiations)
+        ctx.broken = [x for x in ctx.broken if x not in pb]
+        lb = ctx.obligations("JanetModel.Int64.Lemmas", ["JanetModel.Int64." + t for t in LEMMAS])
+        ctx.broken += named + pb
+        broken += lb
     if not quick and not broken:
         ok, log = ctx.leanchecker("JanetModel.Props.C14")
         if not ok:
@@ -230,12 +224,12 @@ def run(ctx):
             diffs.append(i)
     # (E) report: property failures on the implementation first
     reported = set()
-    for i in direct[:40]:
+    for i in sorted(direct, key=lambda i: (len(lines[i]), lines[i])):
         l = lines[i]
         t = l.split()
         cls = "crash" if impl[i] in ("CRASH", "TIMEOUT") else "wrong-result"
         op = t[1] if t[0] == "imm" else t[0]
-        sig = "%s:%s:%s" % (cls, op, "/".join(x[0] for x in t[1:] if len(x) > 1 and x[1] == ":"))
+        sig = "%s:%s" % (cls, op)
         if sig in reported:
             continue
         reported.add(sig)
